@@ -124,7 +124,7 @@ def _valid_text(rng, cls):
         return grammar.gen_addr(rng, platform)["text"]
     if cls == "AddressAg":
         return rng.choice(["host 10.0.0.1", "10.0.0.0 255.255.255.0", "10.0.0.0/24", "10 10.0.0.0 0.0.0.255", "group-object G",
-                           "range 10.0.0.1 10.0.0.9", "description only"])
+                           "range 10.0.0.1 10.0.0.9", "description only", "/24", "10 /24", "/", "host /32"])
     if cls in ("AddrGroup", "addrgroups"):
         head = rng.choice(["object-group network G1", "object-group ip address G1"])
         return head + "\n" + "\n".join(" " + rng.choice(["host 10.0.0.1", "10.0.0.0 255.255.255.0", "10.0.0.0/24", "10 host 1.1.1.1"])
@@ -294,6 +294,12 @@ DETERMINISTIC = [
                             "ip access-list A\n permit ip addrgroup G any\n", "kwargs": {"platform": "nxos"}},
     {"cls": "aces", "text": "object-group network G\n host 10.0.0.1\nobject-group network  G\n host 10.0.0.2\n"
                             "ip access-list extended A\n permit ip object-group G object-group G\n", "kwargs": {"platform": "ios"}},
+    {"cls": "Address", "text": "/24", "kwargs": {"platform": "ios"}},
+    {"cls": "AddressAg", "text": "10 /24", "kwargs": {"platform": "nxos"}},
+    {"cls": "AddrGroup", "text": "object-group ip address G\n /24\n 10.0.0.0/24", "kwargs": {"platform": "nxos"}},
+    {"cls": "addrgroups", "text": "object-group network G\n /24\n host 1.1.1.1\n", "kwargs": {"platform": "ios"}},
+    {"cls": "Ace", "text": "permit ip /24 any", "kwargs": {"platform": "nxos"}},
+    {"cls": "Wildcard", "text": "/24", "kwargs": {"platform": "ios"}},
     {"cls": "Ace", "text": "permit tcp any any eq 80", "kwargs": {"platform": "cisco_asa"}},
     {"cls": "Acl", "text": "ip access-list extended A\n permit icmp any any", "kwargs": {"platform": "cisco_asa"}},
     {"cls": "Port", "text": "range 4294967296 1284", "kwargs": {"platform": "ios", "protocol": "tcp"}},
